@@ -235,6 +235,10 @@ def r_value_serializers(rep, facts, rid, routes=('edit', 'toml'), judge='oracle'
             except (Unanalysable, TypeError, IndexError, KeyError, AttributeError) as ex:
                 rep.incomplete(R, f'{r}|{label}', f'cannot evaluate `{types[r]}` on `{label}`: {type(ex).__name__}: {ex}')
                 bad = True
+        for r, got in list(res.items()):
+            if 'opaque' in str(got) or "'?'" in str(got):
+                rep.incomplete(R, f'{r}|{label}', f'`{types[r]}` on `{label}` evaluates to a tree with parts the evaluator does not model ({got})')
+                bad = True
         if bad:
             continue
         if judge == 'oracle':
